@@ -2,7 +2,7 @@
 """Writes seeded/<ID>/meta.json from the sub-agent's notes, my confirmation logs (.cache/confirm) and the check output."""
 import json,os,re,subprocess
 first_run={'C01':'caught','C02':'missed','C03':'missed','C04':'missed','C05':'missed','C06':'missed','C07':'missed','C08':'missed','C09':'caught','C10':'missed','C11':'caught','C12':'caught','C13':'missed','C14':'missed','C15':'missed','C16':'missed','C17':'caught (check built afterwards, without looking at the change)','C18':'caught','C19':'missed','C20':'caught'}
-first_run.update({'C01-2':'missed','C02-2':'missed by C02 (caught by C13: stale-index-entry)','C03-2':'missed','C04-2':'missed','C05-2':'missed','C06-2':'missed by C06 (caught by C04)','C07-2':'missed','C08-2':'missed','C09-2':'missed','C10-2':'caught'})
+first_run.update({'C01-2':'missed','C02-2':'missed by C02 (caught by C13: stale-index-entry)','C03-2':'missed','C04-2':'missed','C05-2':'missed','C06-2':'missed by C06 (caught by C04)','C07-2':'missed','C08-2':'missed','C09-2':'missed','C10-2':'caught','C11-2':'caught','C12-2':'missed','C13-2':'caught','C14-2':'missed','C15-2':'caught','C16-2':'missed','C17-2':'missed','C18-2':'caught','C19-2':'caught','C20-2':'missed'})
 for name in sorted(os.listdir('/verif/seeded')):
     pid=name; d=f'/verif/seeded/{pid}'
     if not os.path.exists(f'{d}/agent_meta.json'): continue
